@@ -227,7 +227,7 @@ theorem packed12Set_inrange (ws : List Nat) (mem : Nat → Nat) (hm : ∀ j, mem
 /-! ### BinarySearch, Member -/
 
 theorem bsearch_loop (ws : List Nat) (hws : WordsOK 32 ws) (v : Nat) :
-    ∀ n lo hi, hi - lo ≤ n → hi < 2 ^ 31 → ∀ f g, n < f → n < g →
+    ∀ n lo hi, hi - lo ≤ n → hi < 2 ^ 32 → ∀ f g, n < f → n < g →
       ∃ mx, packed12BinarySearch_loop1 (memOf ws) v f (lo, hi) = .done (bsearchAux 32 12 ws v g lo hi, mx) := by
   intro n
   induction n with
@@ -243,8 +243,9 @@ theorem bsearch_loop (ws : List Nat) (hws : WordsOK 32 ws) (v : Nat) :
     obtain ⟨f, rfl⟩ : ∃ f', f = f' + 1 := ⟨f - 1, by omega⟩
     obtain ⟨g, rfl⟩ : ∃ g', g = g' + 1 := ⟨g - 1, by omega⟩
     by_cases c : lo < hi
-    · have em : (lo + hi) % 2 ^ 32 / 2 ^ 1 = (lo + hi) / 2 := by
-        rw [Nat.mod_eq_of_lt (by omega)]
+    · have em : (lo + hi) % 2 ^ 64 / 2 ^ 1 % 2 ^ 32 = (lo + hi) / 2 := by
+        rw [Nat.mod_eq_of_lt (show lo + hi < 2 ^ 64 by omega)]
+        omega
       simp only [packed12BinarySearch_loop1, bsearchAux, if_pos c, em]
       rw [packed12Get_eq ws hws _ (by omega)]
       by_cases d : Packed.get 32 12 ws ((lo + hi) / 2) < v
@@ -258,9 +259,10 @@ theorem bsearch_loop (ws : List Nat) (hws : WordsOK 32 ws) (v : Nat) :
     · simp only [packed12BinarySearch_loop1, bsearchAux, if_neg c]
       exact ⟨_, rfl⟩
 
-/-- **`varintPacked12BinarySearch(src, len, v)`** = the model's lower-bound search, every length below 2^31 (the C
-    computes `(min + max) >> 1` in 32 bits), every fuel above the length -/
-theorem packed12BinarySearch_eq (ws : List Nat) (hws : WordsOK 32 ws) (len v : Nat) (hlen : len < 2 ^ 31)
+/-- **`varintPacked12BinarySearch(src, len, v)`** = the model's lower-bound search, every length below 2^32 (as
+    repaired: `min + max` is added in 64 bits; the original 32-bit `(min + max) >> 1` wrapped from 2^31 elements on: D41),
+    every fuel above the length -/
+theorem packed12BinarySearch_eq (ws : List Nat) (hws : WordsOK 32 ws) (len v : Nat) (hlen : len < 2 ^ 32)
     (fuel : Nat) (hf : len < fuel) :
     packed12BinarySearch fuel (memOf ws) len v = some (Packed.bsearch 32 12 ws len v) := by
   obtain ⟨mx, h⟩ := bsearch_loop ws hws v len 0 len (by omega) hlen fuel (len + 1) hf (by omega)
@@ -268,7 +270,7 @@ theorem packed12BinarySearch_eq (ws : List Nat) (hws : WordsOK 32 ws) (len v : N
   simp only [h]
 
 /-- **`varintPacked12Member(src, len, v)`** = the model's `member` -/
-theorem packed12Member_eq (ws : List Nat) (hws : WordsOK 32 ws) (len v : Nat) (hlen : len < 2 ^ 31)
+theorem packed12Member_eq (ws : List Nat) (hws : WordsOK 32 ws) (len v : Nat) (hlen : len < 2 ^ 32)
     (fuel : Nat) (hf : len < fuel) :
     packed12Member fuel (memOf ws) len v = some (Packed.member 32 12 ws len v) := by
   unfold packed12Member Packed.member
@@ -423,7 +425,7 @@ theorem rdw_memOf_nil (ws : List Nat) : (fun i => rdw (memOf ws) [] (0 + i)) = m
   simpa [applyStores] using this
 
 /-- **`varintPacked12InsertSorted(dst, len, v)`** = lower-bound search, then the positional insert -/
-theorem packed12InsertSorted_eq (ws : List Nat) (hws : WordsOK 32 ws) (len v : Nat) (hlen : len < 2 ^ 31)
+theorem packed12InsertSorted_eq (ws : List Nat) (hws : WordsOK 32 ws) (len v : Nat) (hlen : len < 2 ^ 32)
     (hfit : FitsN 32 12 ws (len + 1)) (hv : v < 2 ^ 12) (fuel : Nat) (hf : len < fuel) :
     ∃ st, packed12InsertSorted fuel (memOf ws) len v = some st ∧ (∀ p ∈ st, p.1 < ws.length) ∧
       applyStores ws st = Packed.insertSorted 32 12 ws len v := by
@@ -437,7 +439,7 @@ theorem packed12InsertSorted_eq (ws : List Nat) (hws : WordsOK 32 ws) (len v : N
 
 /-- **`varintPacked12DeleteMember(dst, len, v)`** = the model's `deleteMember`: found ⇒ the stores leave the array
     with the first occurrence deleted and the result is true; absent ⇒ no store and false -/
-theorem packed12DeleteMember_eq (ws : List Nat) (hws : WordsOK 32 ws) (len v : Nat) (hlen : len < 2 ^ 31)
+theorem packed12DeleteMember_eq (ws : List Nat) (hws : WordsOK 32 ws) (len v : Nat) (hlen : len < 2 ^ 32)
     (hfit : FitsN 32 12 ws len) (fuel : Nat) (hf : len < fuel) :
     ∃ r st, packed12DeleteMember fuel (memOf ws) len v = some (r, st) ∧ (∀ p ∈ st, p.1 < ws.length) ∧
       (applyStores ws st, decide (r = 1)) = Packed.deleteMember 32 12 ws len v ∧ (r = 0 ∨ r = 1) := by
